@@ -29,7 +29,7 @@ use std::time::Duration;
 pub static INFO: PropInfo = PropInfo {
     id: "C18",
     level: "exploration",
-    rule: "one evaluation = one simulated pair (real NetcodeServer + real NetcodeClient, addressed datagram network with per-datagram drop / duplicate / delay decisions, virtual time, tick lengths {10,100,250,400 ms, irregular}, timeouts {1,5,15 s,-1}) in one of five seeded scenarios: (H) handshake under a fault phase (random loss up to 90 %, duplication, reordering, or scripted 'lose the first n copies of handshake packet k' for each of the four packets), then faults stop and the pair must be connected on both sides within B = 4*(250 ms + 2*dt_max) + 1 s unless the token expiry or the client's own timeout falls inside B or the server is full; in half of the (H) pairs 1-5 OTHER addresses have started a handshake with valid tokens and abandoned it (half-open sessions are not connected clients and take nobody's slot); variants with other clients connected, the limit raised above its construction value, lowered to full and raised again; in half of the (H) and (F) pairs the applications STREAM: the server hands a payload to the session every tick from the moment it reports the client connected, the client likewise once connected; (F) failover: 1-2 silent server addresses listed before the real one; the client's clock does not share an origin with the clock the token was stamped on in half of the pairs (it starts near zero, or an hour to twelve days ahead: only durations matter to a client); (T) timeouts: connect, chatty phase with loss, then one or both directions go silent; at every update / update_client the deadline monitor demands a disconnect iff no authentic packet arrived for more than `timeout`, and forbids it while one arrived within `timeout`; the same history is run twice, once with injected datagrams (replayed Response / Request, random type-0 datagram, replayed / bit-flipped / wrong-key keep-alives, replayed Challenge) and the disconnect times of the twins are compared; (L) long lossy-but-live session in which each direction delivers at least one authentic packet per timeout/2: no disconnect allowed - in half of these the token lives 5-9 s and the session outlives it (a token bounds the handshake, not the session); (R) restart: a client starts a handshake and is gone before completing it; a new client with a fresh token (same or new client id) starts from the same address while the first one's half-open entry is still at the server, and must be connected within B; (P) half-open entry (verif_pending hook) must vanish at the first update with floor(t) > expire, also under replayed requests. Non-trivial = the scenario's obligation was actually evaluated (deadline reached with preconditions true / a timeout verdict was taken / the pending entry was seen and then checked); distinct = distinct fingerprints of the datagram and state history.",
+    rule: "one evaluation = one simulated pair (real NetcodeServer + real NetcodeClient, addressed datagram network with per-datagram drop / duplicate / delay decisions, virtual time, tick lengths {10,100,250,400 ms, irregular}, timeouts {1,5,15 s,-1}) in one of five seeded scenarios: (H) handshake under a fault phase (random loss up to 90 %, duplication, reordering, or scripted 'lose the first n copies of handshake packet k' for each of the four packets), then faults stop and the pair must be connected on both sides within B = 4*(250 ms + 2*dt_max) + 1 s unless the token expiry or the client's own timeout falls inside B or the server is full; in half of the (H) pairs 1-5 OTHER addresses have started a handshake with valid tokens and abandoned it (half-open sessions are not connected clients and take nobody's slot); variants with other clients connected, the limit raised above its construction value, lowered to full and raised again; in half of the (H) and (F) pairs the applications STREAM: the server hands a payload to the session every tick from the moment it reports the client connected, the client likewise once connected; (F) failover: 1-2 silent server addresses listed before the real one; the client's clock does not share an origin with the clock the token was stamped on in half of the pairs (it starts near zero, or an hour to twelve days ahead: only durations matter to a client); (T) timeouts: connect, chatty phase with loss, then one or both directions go silent; at every update / update_client the deadline monitor demands a disconnect iff no authentic packet arrived for more than `timeout`, and forbids it while one arrived within `timeout`; the same history is run twice, once with injected datagrams (replayed Response / Request, random type-0 datagram, replayed / bit-flipped / wrong-key keep-alives, replayed Challenge) and the disconnect times of the twins are compared; (L) long lossy-but-live session in which each direction delivers at least one authentic packet per timeout/2: no disconnect allowed - in half of these the token lives 5-9 s and the session outlives it (a token bounds the handshake, not the session); (R) restart: a client starts a handshake and is gone before completing it; a new client with a fresh token (same or new client id) starts from the same address while the first one's half-open entry is still at the server, and must be connected within B; (R') restart with the SAME token: the client process dies silently in a short session and is started again at the same address 0.5-0.8 timeouts later; the server drops the dead session at its timeout (its Disconnect reaches the still requesting new client) and the client must be connected on both sides within timeout + 4 x 250 ms + 10 ticks of its restart; (P) half-open entry (verif_pending hook) must vanish at the first update with floor(t) > expire, also under replayed requests. Non-trivial = the scenario's obligation was actually evaluated (deadline reached with preconditions true / a timeout verdict was taken / the pending entry was seen and then checked); distinct = distinct fingerprints of the datagram and state history.",
     assumptions: &[
         "bounded liveness only: B = 4*(250 ms + 2*dt_max) + 1 s of virtual time after the fault phase; failover adds (timeout + 2*dt_max) per silent address",
         "authentic for the must-disconnect clause = first delivery of any datagram the peer really produced (lenient); for the must-not-disconnect clause only first deliveries of keep-alive / payload datagrams while connected count (strict); datagrams in between (a late Response after the server already connected the client) may or may not refresh",
@@ -568,7 +568,13 @@ pub fn one_run(ctx: &Ctx, out: &mut Outcome, run_seed: u64) {
         6 | 7 => scen_failover(ctx, out, &mut r, run_seed),
         8..=11 => scen_timeout_twins(ctx, out, run_seed),
         12 | 13 => scen_live(ctx, out, &mut r, run_seed),
-        14 => scen_restart(ctx, out, &mut r, run_seed),
+        14 => {
+            if r.chance(1, 3) {
+                scen_restart_same_token(ctx, out, &mut r, run_seed)
+            } else {
+                scen_restart(ctx, out, &mut r, run_seed)
+            }
+        }
         _ => scen_pending(ctx, out, &mut r, run_seed),
     }
 }
@@ -1064,6 +1070,117 @@ fn scen_restart(ctx: &Ctx, out: &mut Outcome, r: &mut Rng, run_seed: u64) {
     let expire_at = p.cli.minted.expire;
     let ok = check_bounded_connect(ctx, out, r, &mut p, fixed, "restart", Duration::ZERO, expire_at, Duration::from_secs(expire_s), connect_start);
     finish(out, &p, ok, json!({"same_client_id": same_id, "first_client_steps": steps, "challenges_lost": drop_challenges}));
+}
+
+/// The client process dies silently in the middle of a short session and is started again, at the same address, with the
+/// same (still valid) connect token, before the server has timed the dead session out. The new client keeps asking;
+/// the server drops the dead session when its timeout is over (its Disconnect datagram reaches the new client, which is
+/// still requesting: it is not that client's session) and the next request gets the client in. Connected on both
+/// sides within timeout + 4 x 250 ms + a few ticks of the restart.
+fn scen_restart_same_token(ctx: &Ctx, out: &mut Outcome, r: &mut Rng, run_seed: u64) {
+    let protocol = r.next_u64();
+    let key = rkey(r);
+    let saddr = addr4(0, 0, 5000);
+    let now = ms(5_000_000 + r.below(1000));
+    let mut srv = Srv::new(now, r.urange(1, 3), protocol, vec![saddr], key, true);
+    let tau = *r.pick(&[1i32, 2, 5]);
+    let id = 7000 + r.below(1000);
+    let m = mint(r, now.as_secs(), protocol, 120, id, tau, &[saddr], None, &key);
+    let caddr = addr4(5, 0, 4000);
+    let mut hist: Vec<String> = Vec::new();
+    let mut a_cli = match Cli::new(now, m.clone(), caddr) {
+        Ok(c) => c,
+        Err(e) => return out.inconclusive(&format!("C18 restart: client setup: {e}")),
+    };
+    if let Err(e) = crate::nsim::handshake(&mut srv, &mut a_cli, ms(20), 100) {
+        return out.inconclusive(&format!("C18 restart: first handshake: {e}"));
+    }
+    let dt = ms(*r.pick(&[50u64, 100]));
+    // a short live session
+    let live = r.range(2, 10);
+    for _ in 0..live {
+        srv.update(dt);
+        if let Some((b, _)) = a_cli.update(dt) {
+            let _ = srv.process(caddr, &b);
+        }
+        if let Some((_, b)) = srv.update_client(id).outgoing() {
+            a_cli.process(b);
+        }
+    }
+    if !srv.s.is_client_connected(id) {
+        return out.inconclusive("C18 restart: the first session did not stay up");
+    }
+    hist.push(format!("tau {} s, tick {} ms: session of {} ticks, then the client process dies silently", tau, dt.as_millis(), live));
+    drop(a_cli);
+    // the dead time before the restart: between half and 0.8 of the timeout (the new client's own request timeout
+    // must outlast the server's timeout of the dead session)
+    let dead_ms = (tau as u64 * 1000) * r.range(50, 80) / 100;
+    let mut waited = 0;
+    let mut to_new_client: Vec<Vec<u8>> = Vec::new();
+    while waited < dead_ms {
+        srv.update(dt);
+        waited += dt.as_millis() as u64;
+        let _ = srv.update_client(id); // keep-alives to a dead process
+    }
+    let client_clock = if r.chance(1, 2) { srv.now } else { ms(r.below(5000)) };
+    let mut b_cli = match Cli::new(client_clock, m, caddr) {
+        Ok(c) => c,
+        Err(e) => return out.inconclusive(&format!("C18 restart: client setup: {e}")),
+    };
+    hist.push(format!("restart {} ms later with the same token at the same address (server still holds the dead session: {})", waited, srv.s.is_client_connected(id)));
+    let budget_ms = tau as u64 * 1000 + 4 * 250 + 10 * dt.as_millis() as u64;
+    let mut t = 0u64;
+    let mut freed_at: Option<u64> = None;
+    let mut connected_at: Option<u64> = None;
+    while t < budget_ms {
+        t += dt.as_millis() as u64;
+        srv.update(dt);
+        for x in std::mem::take(&mut to_new_client) {
+            b_cli.process(&x);
+        }
+        if let Some((b, to)) = b_cli.update(dt) {
+            if to == saddr {
+                if let Some((dst, rep)) = srv.process(caddr, &b).outgoing() {
+                    if dst == caddr {
+                        b_cli.process(rep);
+                    }
+                }
+            }
+        }
+        match srv.update_client(id) {
+            SResult::Send { addr, bytes } if addr == caddr => to_new_client.push(bytes),
+            SResult::Disconnected { addr, bytes, .. } => {
+                freed_at.get_or_insert(t);
+                hist.push(format!("+{} ms: the server times the dead session out", t));
+                if let (true, Some(b)) = (addr == caddr, bytes) {
+                    to_new_client.push(b);
+                }
+            }
+            _ => {}
+        }
+        if b_cli.c.is_connected() && srv.s.is_client_connected(id) && freed_at.is_some() {
+            connected_at = Some(t);
+            break;
+        }
+        if b_cli.c.is_disconnected() {
+            break;
+        }
+    }
+    out.count("restart.same_token_same_address");
+    out.eval(crate::rng::mix(&[0x5A3E, run_seed, tau as u64, live]), freed_at.is_some());
+    hist.push(format!("+{} ms: client connected={} connecting={} reason={:?}; server has client={}", t, b_cli.c.is_connected(), b_cli.c.is_connecting(), b_cli.c.disconnect_reason(), srv.s.is_client_connected(id)));
+    match connected_at {
+        Some(t) => out.max("restart_same_token_connect_ms", t),
+        None => {
+            out.violation(
+                ctx,
+                "C18/handshake-bound-exceeded/restart-same-token",
+                "an honest client holding a valid token becomes connected on both sides within a bounded time whenever fewer clients are connected than the limit",
+                format!("restarted client (same token, same address) after {} ms: connected={} reason={:?}; the server freed the dead session at {:?} ms and has the client={}", t, b_cli.c.is_connected(), b_cli.c.disconnect_reason(), freed_at, srv.s.is_client_connected(id)),
+                json!({"property": "C18", "engine": ctx.engine, "run_seed": format!("{:#x}", run_seed), "scenario": "restart-same-token", "timeout_seconds": tau, "history": hist}),
+            );
+        }
+    }
 }
 
 fn scen_pending(ctx: &Ctx, out: &mut Outcome, r: &mut Rng, run_seed: u64) {
